@@ -1,2 +1,280 @@
-(* C12/Properties.v — the property theorems of C12 and nothing else. *)
+(* C12/Properties.v — the property theorems of C12 and nothing else.
+   "Negotiation carries addresses and identifiers faithfully and checks them." *)
 From XV Require Import lib.Bytes gen.StreamHdr C12.Model C12.Proofs.
+From Coq Require Import NArith.
+Local Open Scope N_scope.
+
+(* The source still says what the model of Send assumes: the literals the header
+   is printed from, the attributes written through writeAttr (escaped), the name
+   spaces, the XML declaration, the default version, the IQ type names. *)
+Theorem C12_tables :
+  (send_literals =
+   [ str "<open xmlns=""urn:ietf:params:xml:ns:xmpp-framing"" version='%s'";
+     str "<stream:stream xmlns='%s' xmlns:stream='http://etherx.jabber.org/streams' version='%s'";
+     str "id"; str "to"; str "from"; str "xml:lang"; str "/>"; str ">" ] /\
+   write_attr_literals = [ str " %s='" ] /\
+   send_attr_calls = [ (str "id", str "id"); (str "to", str "to"); (str "from", str "from"); (str "xml:lang", str "lang") ] /\
+   send_escaped_params = [ str "value" ]) /\
+  (ns_stream = str "http://etherx.jabber.org/streams" /\
+   ns_stream_error = str "urn:ietf:params:xml:ns:xmpp-streams" /\
+   ns_client = str "jabber:client" /\ ns_server = str "jabber:server" /\
+   ns_ws = str "urn:ietf:params:xml:ns:xmpp-framing" /\
+   ns_bind = str "urn:ietf:params:xml:ns:xmpp-bind" /\
+   ns_xml = str "http://www.w3.org/XML/1998/namespace" /\
+   xml_header = str "<?xml version=""1.0"" encoding=""UTF-8""?>" /\
+   default_version = (1, 0) /\
+   iq_set = str "set" /\ iq_result = str "result" /\ iq_error = str "error").
+Proof. exact (conj tbl_send_literals tbl_namespaces). Qed.
+Print Assumptions C12_tables.
+
+(* ---- the header Send prints ---- *)
+
+(* Well-formed for every clean id, language and pair of addresses (any bytes a
+   valid JID may hold: quotes, ampersands, angle brackets, non-ASCII), any version,
+   and a peer's parser reads back exactly the element and attribute values sent.
+   TCP framing: the name space given must be printable as it is (Send prints it raw). *)
+Theorem C12_header_wellformed_and_recovered_tcp :
+  forall xmlns ver lang to from id rest,
+    forallb plainb xmlns = true -> text_ok xmlns = true ->
+    fst ver < 256 -> snd ver < 256 ->
+    text_ok lang = true -> text_ok to = true -> text_ok from = true -> text_ok id = true ->
+    read_start (send_header false xmlns ver lang to from id ++ rest) =
+    Some (tcp_token xmlns ver lang to from id, false, rest).
+Proof. exact read_start_tcp. Qed.
+Print Assumptions C12_header_wellformed_and_recovered_tcp.
+
+(* WebSocket framing: a self-closing <open/> in the framing name space. *)
+Theorem C12_header_wellformed_and_recovered_ws :
+  forall xmlns ver lang to from id rest,
+    fst ver < 256 -> snd ver < 256 ->
+    text_ok lang = true -> text_ok to = true -> text_ok from = true -> text_ok id = true ->
+    read_start (send_header true xmlns ver lang to from id ++ rest) =
+    Some (ws_token ver lang to from id, true, rest).
+Proof. exact read_start_ws. Qed.
+Print Assumptions C12_header_wellformed_and_recovered_ws.
+
+(* Version.String then ParseVersion is the identity on every version. *)
+Theorem C12_version_roundtrip :
+  forall v, fst v < 256 -> snd v < 256 -> parse_version (version_string v) = Some v.
+Proof. exact parse_version_string. Qed.
+Print Assumptions C12_version_roundtrip.
+
+(* The peer being this library: Send, a parser, Expect. For all valid addresses,
+   language and id, both roles: the header is accepted (an initiator needs an
+   id) and Info holds the same addresses, id, version and content name space.
+   Partial: the language is the exception, see below. *)
+Theorem C12_header_recovered_by_expect_tcp_partial :
+  forall parse recv i0 xmlns lang jto jfrom id rest,
+    xmlns = ns_client \/ xmlns = ns_server ->
+    valid_jid parse jto -> valid_jid parse jfrom -> valid_value lang -> valid_value id ->
+    exists t,
+      read_start (send_header false xmlns default_version lang (jid_string jto) (jid_string jfrom) id ++ rest)
+        = Some (t, false, rest) /\
+      t = tcp_token xmlns default_version lang (jid_string jto) (jid_string jfrom) id /\
+      let i' := recovered i0 ns_stream (str "stream") xmlns jto jfrom id in
+      expect parse recv false i0 [t] =
+        if negb recv && is_nil (i_id i') then (EStream c_bad_format, i', []) else (EOk, i', []).
+Proof. exact header_end_to_end_tcp. Qed.
+Print Assumptions C12_header_recovered_by_expect_tcp_partial.
+
+Theorem C12_header_recovered_by_expect_ws_partial :
+  forall parse recv i0 xmlns lang jto jfrom id rest,
+    valid_jid parse jto -> valid_jid parse jfrom -> valid_value lang -> valid_value id ->
+    exists t,
+      read_start (send_header true xmlns default_version lang (jid_string jto) (jid_string jfrom) id ++ rest)
+        = Some (t, true, rest) /\
+      t = ws_token default_version lang (jid_string jto) (jid_string jfrom) id /\
+      let i' := recovered i0 ns_ws (str "open") ns_ws jto jfrom id in
+      expect parse recv true i0 [t; TEnd ns_ws (str "open")] =
+        if negb recv && is_nil (i_id i') then (EStream c_bad_format, i', []) else (EOk, i', []).
+Proof. exact header_end_to_end_ws. Qed.
+Print Assumptions C12_header_recovered_by_expect_ws_partial.
+
+(* Full strength would add the language. Info.FromStartElement (stream/stream.go)
+   looks for the attribute {Space:"xml", Local:"lang"} while the decoder delivers
+   the XML name space URI: the faithful model never records it. *)
+Definition C12_header_language_statement : Prop := language_recovered_statement.
+Theorem C12_header_language_refuted : ~ C12_header_language_statement.
+Proof. exact language_refuted. Qed.
+Print Assumptions C12_header_language_refuted.
+
+(* ---- what Expect accepts ---- *)
+
+(* Expect succeeds only on: white space after at most one leading XML
+   declaration, then the stream-open element of the framing in use; the Info it
+   leaves holds version 1.0, (TCP) a supported content name space and (initiator)
+   a stream id; for WebSocket framing the rest of <open/> was skipped. For every
+   token script a decoder can produce and every Info. *)
+Theorem C12_expect_accepts_only :
+  forall parse ts recv ws i i' rest,
+    no_end_before_start ts = true ->
+    expect parse recv ws i ts = (EOk, i', rest) ->
+    exists pre ns l attrs post,
+      ts = pre ++ TStart ns l attrs :: post /\
+      clean_prefix false pre = true /\
+      is_header ws ns l /\
+      from_start_element parse ns l attrs i = (None, i') /\
+      i_ver i' = default_version /\
+      (ws = false -> i_xmlns i' = ns_client \/ i_xmlns i' = ns_server) /\
+      (recv = false -> i_id i' <> []) /\
+      (if ws then ws_skip 0 post = (EOk, rest) else rest = post).
+Proof. intros parse ts recv ws i i' rest. exact (expect_go_ok parse ts recv ws false i i' rest). Qed.
+Print Assumptions C12_expect_accepts_only.
+
+(* With the Info negotiateSession hands over (reset before every header), the
+   accepted element itself declares version 1.0, the content name space and the id. *)
+Theorem C12_expect_accepted_header_declares :
+  forall parse recv ws ts i i' rest,
+    no_end_before_start ts = true ->
+    i_ver i <> default_version -> i_xmlns i = [] -> i_id i = [] ->
+    expect parse recv ws i ts = (EOk, i', rest) ->
+    exists pre ns l attrs post,
+      ts = pre ++ TStart ns l attrs :: post /\ clean_prefix false pre = true /\ is_header ws ns l /\
+      has_attr attrs (str "version") (fun v => parse_version v = Some default_version) /\
+      (ws = false -> has_attr attrs (str "xmlns") (fun v => v = ns_client \/ v = ns_server)) /\
+      (recv = false -> has_attr attrs (str "id") (fun v => v <> [])) /\
+      (if ws then ws_skip 0 post = (EOk, rest) else rest = post).
+Proof. exact accepted_declares. Qed.
+Print Assumptions C12_expect_accepted_header_declares.
+
+(* A stream error in place of a header comes back as that error (the condition
+   is the last child of the stream error name space that is not <text/>), for
+   every list of children RFC 6120 defines, in both roles and framings.
+   Partial: see the refutation for application-specific conditions. *)
+Theorem C12_stream_error_returned_partial :
+  forall parse recv ws i attrs kids ens el rest,
+    forallb defined_child kids = true ->
+    expect parse recv ws i (TStart ns_stream (str "error") attrs :: flat_map flatten kids ++ TEnd ens el :: rest)
+    = (EStream (cond_of kids []), i, []).
+Proof. exact stream_error_returned. Qed.
+Print Assumptions C12_stream_error_returned_partial.
+
+(* Full strength: any children. stream/error.go does not skip a child outside
+   the stream error name space (an application-specific condition), returns at
+   its end tag, and encoding/xml reports an error that is not the stream error. *)
+Definition C12_stream_error_statement : Prop := stream_error_any_children_statement.
+Theorem C12_stream_error_refuted : ~ C12_stream_error_statement.
+Proof. exact stream_error_application_condition_refuted. Qed.
+Print Assumptions C12_stream_error_refuted.
+
+(* ---- addresses across restarts ---- *)
+
+(* Receiving side, any sequence of stream (re)starts that is accepted to the
+   end: an address once established never changes (c2s: the origin may be set
+   once while it is unset; s2s: it can never change). *)
+Theorem C12_restart_addresses_stable_receiving :
+  forall parse s2s ws lang rounds i i' wires,
+    neg_rounds parse true s2s ws lang i rounds = (NOk, i', wires) ->
+    (i_to i <> jid_zero -> i_to i' = i_to i) /\
+    (i_from i <> jid_zero -> i_from i' = i_from i) /\
+    (s2s = true -> i_from i' = i_from i).
+Proof. intros parse s2s ws lang. exact (rounds_recv parse s2s ws lang). Qed.
+Print Assumptions C12_restart_addresses_stable_receiving.
+
+(* Initiating side: both addresses are those the session started with (a header
+   without "to" is tolerated, it changes nothing). Premise: jid.Parse never
+   yields the empty JID. *)
+Theorem C12_restart_addresses_stable_initiating :
+  forall parse, (forall v j, parse v = Some j -> j <> jid_zero) ->
+  forall s2s ws lang rounds i i' wires,
+    neg_rounds parse false s2s ws lang i rounds = (NOk, i', wires) ->
+    i_to i' = i_to i /\ i_from i' = i_from i.
+Proof. intros parse Pz s2s ws lang. exact (rounds_init parse Pz s2s ws lang). Qed.
+Print Assumptions C12_restart_addresses_stable_initiating.
+
+(* One (re)start: a header after which an established address would differ is refused. *)
+Theorem C12_changed_address_rejected_receiving :
+  forall parse s2s ws lang rid i ts res i' w,
+    neg_round parse true s2s ws lang rid i ts = (res, i', w) ->
+    (i_to i <> jid_zero /\ i_to i' <> i_to i) \/
+    (i_from i <> jid_zero /\ i_from i' <> i_from i) \/
+    (s2s = true /\ i_from i' <> i_from i) ->
+    res <> NOk.
+Proof. exact changed_address_rejected_recv. Qed.
+Print Assumptions C12_changed_address_rejected_receiving.
+
+Theorem C12_changed_address_rejected_initiating :
+  forall parse s2s ws lang rid i ts res i' w,
+    (forall v j, parse v = Some j -> j <> jid_zero) ->
+    neg_round parse false s2s ws lang rid i ts = (res, i', w) ->
+    i_to i' <> i_to i \/ i_from i' <> i_from i ->
+    res <> NOk.
+Proof. exact changed_address_rejected_init. Qed.
+Print Assumptions C12_changed_address_rejected_initiating.
+
+(* An accepted (re)start on the receiving side answers with the header printed
+   from the peer's addresses (swapped), the configured language and the fresh id. *)
+Theorem C12_receiving_side_answers_with_swapped_addresses :
+  forall parse s2s ws lang rid i ts i' w,
+    neg_round parse true s2s ws lang rid i ts = (NOk, i', w) ->
+    w = send_header ws (content_ns s2s) default_version lang (jid_string (i_from i')) (jid_string (i_to i')) rid.
+Proof. intros parse s2s ws lang rid i ts i' w H. exact (proj2 (proj2 (round_recv parse s2s ws lang rid i ts i' w H))). Qed.
+Print Assumptions C12_receiving_side_answers_with_swapped_addresses.
+
+(* ---- resource binding ---- *)
+
+(* The initiator's request, decoded by the receiving side, asks for exactly the
+   resourcepart given (the empty one when the local address has none): the
+   application's callback receives it. *)
+Theorem C12_bind_initiator_requests_own_resource :
+  forall parse reqid res v,
+    snd (fst (bind_server parse false (IElem (bind_request reqid res)) v)) = Some res.
+Proof. exact server_gets_resource. Qed.
+Print Assumptions C12_bind_initiator_requests_own_resource.
+
+(* The initiator reports the assigned address exactly when the reply is an iq
+   result with the request's id carrying an address; in every other case (error,
+   wrong id, wrong type, no or invalid address, not an iq, failure) it fails and
+   its address is unchanged. *)
+Theorem C12_bind_initiator_adopts_assigned :
+  forall parse reqid reply local res l',
+    bind_client parse reqid reply local = (res, l') ->
+    (res = BReady ->
+       exists attrs kids q,
+         reply = IElem (NElem ns_client (str "iq") attrs kids) /\
+         decode_bind_iq parse attrs kids = Some q /\
+         b_id q = reqid /\ b_type q = iq_result /\ b_jid q <> jid_zero /\ l' = b_jid q) /\
+    (res <> BReady -> l' = local).
+Proof. exact bind_client_spec. Qed.
+Print Assumptions C12_bind_initiator_adopts_assigned.
+
+(* The receiver answers the request's id, addresses swapped, with the address
+   the callback chose (VJid; the default verdict is a fresh resource on the
+   remote bare address), or with the callback's stanza error typed "error". *)
+Theorem C12_bind_receiver_answers_request :
+  forall parse s2s attrs kids v q,
+    decode_bind_iq parse attrs kids = Some q ->
+    bind_server parse s2s (IElem (NElem (content_ns s2s) (str "iq") attrs kids)) v =
+    match v with
+    | VFail => (BOther, Some (b_resource q), [])
+    | VJid j =>
+        (BReady, Some (b_resource q),
+         flatten (NElem (content_ns s2s) (str "iq") (iq_attrs iq_result (b_from q) (b_to q) (attr_first (str "id") attrs))
+                        [NElem ns_bind (str "bind") [] (payload_nodes [] j)]))
+    | VStanzaErr en =>
+        (BReady, Some (b_resource q),
+         flatten (NElem (content_ns s2s) (str "iq") (iq_attrs iq_error (b_from q) (b_to q) (attr_first (str "id") attrs)) en))
+    end.
+Proof. exact bind_server_reply. Qed.
+Print Assumptions C12_bind_receiver_answers_request.
+
+(* Both sides together: request -> receiver -> reply -> initiator adopts the
+   address the callback chose; a callback error reaches the initiator as an
+   error and leaves its address alone. *)
+Theorem C12_bind_roundtrip :
+  forall parse reqid res j local,
+    is_nil (jid_string j) = false -> parse (jid_string j) = Some j -> j <> jid_zero ->
+    exists n,
+      bind_server parse false (IElem (bind_request reqid res)) (VJid j) = (BReady, Some res, flatten n) /\
+      bind_client parse reqid (IElem n) local = (BReady, j).
+Proof. exact bind_roundtrip_jid. Qed.
+Print Assumptions C12_bind_roundtrip.
+
+Theorem C12_bind_roundtrip_error :
+  forall parse reqid res ens a ks local,
+    exists n,
+      bind_server parse false (IElem (bind_request reqid res)) (VStanzaErr [NElem ens (str "error") a ks])
+        = (BReady, Some res, flatten n) /\
+      bind_client parse reqid (IElem n) local = (BStanzaErr, local).
+Proof. exact bind_roundtrip_error. Qed.
+Print Assumptions C12_bind_roundtrip_error.
